@@ -118,7 +118,8 @@ func runC12(res *Result, d *Driver, tier string, seed uint64) {
 			spec.Ctx = ctx
 			go func(dl time.Duration) { time.Sleep(dl); cancel() }(time.Duration(rng.Intn(15)) * time.Millisecond)
 		case 2:
-			spec.SyncFunc = func(int) error { return errors.New("refused") }
+			// refuse late, when the program has already built its process tree (sync after exec)
+			spec.SyncFunc = func(int) error { time.Sleep(25 * time.Millisecond); return errors.New("refused") }
 		}
 		r, _ := env.runProbe(spec, rng.Bool())
 		cancel()
